@@ -59,6 +59,8 @@ pub enum Got {
     Real { neg: bool, re: f64, im: f64 },
     /// parsed, but there is no literal where the spelling was written
     Other(String),
+    /// the parser panicked (C01's observable; reported here too because the spelling is a numeric literal)
+    Panic(String),
 }
 
 fn expr_got(e: &Expression) -> Got {
@@ -93,9 +95,14 @@ fn qubit_got(q: Option<&Qubit>) -> Got {
 
 /// Parse `text` and extract the operand at position `name`.
 pub fn observe(name: &str, text: &str) -> Got {
-    let program = match Program::from_str(text) {
-        Ok(p) => p,
-        Err(_) => return Got::Err,
+    let parsed = std::panic::catch_unwind(|| Program::from_str(text));
+    let program = match parsed {
+        Ok(Ok(p)) => p,
+        Ok(Err(_)) => return Got::Err,
+        Err(e) => {
+            let msg = e.downcast_ref::<&str>().map(|x| x.to_string()).or_else(|| e.downcast_ref::<String>().cloned()).unwrap_or_default();
+            return Got::Panic(msg);
+        }
     };
     let instrs = program.to_instructions();
     let Some(first) = instrs.first() else { return Got::Other("empty program".into()) };
@@ -259,6 +266,7 @@ fn nearest_f64(mant: &str, e10: i64) -> f64 {
 fn allowed(dom: &str, imag: bool, sign: &str, is_float: bool, mant: &str, e10: i64, got: &Got) -> Result<(), String> {
     match got {
         Got::Err => Ok(()),
+        Got::Panic(msg) => Err(format!("the parser panicked: {msg}")),
         Got::Other(what) => Err(format!("parsing succeeded but the operand is not a literal: {what}")),
         Got::Int(v) => {
             if is_float {
@@ -303,6 +311,15 @@ fn allowed(dom: &str, imag: bool, sign: &str, is_float: bool, mant: &str, e10: i
     }
 }
 
+fn shorten(text: &str) -> String {
+    let c: Vec<char> = text.chars().collect();
+    if c.len() <= 140 {
+        format!("{text:?}")
+    } else {
+        format!("{:?}…({} chars)…{:?}", c[..70].iter().collect::<String>(), c.len(), c[c.len() - 40..].iter().collect::<String>())
+    }
+}
+
 fn plain_small_decimal(sign: &str, lit: &str) -> bool {
     sign.is_empty() && lit.chars().all(|c| c.is_ascii_digit()) && lit.len() <= 10 && lit.parse::<u64>().map(|v| v < (1 << 31)).unwrap_or(false) && !(lit.len() > 1 && lit.starts_with('0'))
 }
@@ -322,9 +339,12 @@ fn judge_all(sign: &str, lit: &str, is_float: bool, mant: &str, e10: i64, exp: O
             o.violate(
                 Violation::new("operand value", json!({"spelling": format!("{sign}{lit}"), "mantissa": mant, "e10": e10, "real": is_float}),
                                json!(format!("{got:?}")))
-                    .note(format!("{name}: {text:?}: {why}")),
+                    .note(format!("{name}: {}: {why}", shorten(&text))),
             );
             continue;
+        }
+        if !matches!(got, Got::Err) {
+            o.count("values_judged");
         }
         if let Some(exp) = exp {
             let model_rejects = exp[*dom]["r"].as_str() == Some("reject");
@@ -345,6 +365,17 @@ pub fn replay(_ctx: &Ctx, case: &Value) -> Outcome {
         // a rejected recorded history: re-run the spelling of its reset event in every position
         let lit: String = h[0]["chars"].as_array().map(|a| a.iter().map(|c| c.as_str().unwrap_or("")).collect()).unwrap_or_default();
         let sign = h.as_array().and_then(|a| a.iter().find(|e| e["ev"] == "end")).map(|e| s(e, "sign")).unwrap_or_default();
+        return match own_math(&lit) {
+            Some((is_float, mant, e10)) => judge_all(&sign, &lit, is_float, &mant, e10, None, None),
+            None => Outcome::skip(),
+        };
+    }
+    if let Some(sp) = case.get("spelling").and_then(|x| x.as_str()) {
+        // a spelling of the driver's stress families (judged against the harness' own reading of the spelling)
+        let (sign, lit) = match sp.chars().next() {
+            Some(c @ ('-' | '+')) => (c.to_string(), sp[1..].to_string()),
+            _ => (String::new(), sp.to_string()),
+        };
         return match own_math(&lit) {
             Some((is_float, mant, e10)) => judge_all(&sign, &lit, is_float, &mant, e10, None, None),
             None => Outcome::skip(),
@@ -489,7 +520,7 @@ fn f64_digits(v: f64) -> (Vec<String>, i64) {
 fn got_json(g: &Got) -> Value {
     match g {
         Got::Err => json!({"t": "err"}),
-        Got::Other(_) => json!({"t": "other"}),
+        Got::Other(_) | Got::Panic(_) => json!({"t": "other"}),
         Got::Int(v) => json!({"t": "int", "neg": *v < 0,
                                "mag": v.unsigned_abs().to_string().chars().map(|c| c.to_string()).collect::<Vec<_>>()}),
         Got::Real { neg, re, im } => {
@@ -500,6 +531,263 @@ fn got_json(g: &Got) -> Value {
             let (digits, e10) = f64_digits(v);
             json!({"t": "real", "neg": neg, "part": part, "digits": digits, "e10": e10})
         }
+    }
+}
+
+// ---------------------------------------------------------------------- stress families (replay oracle)
+// Spellings that only a change of the lexer's number options / fast paths would get wrong.  They are far too long
+// for TLC's exact arithmetic to be worth it, so they are judged in the driver by the same predicate as the replay
+// direction (`allowed`: bit-for-bit against str::parse::<f64>, which is correctly rounded for any length).
+
+/// natural numbers in base 10^9, little endian (exact decimal expansions of binary fractions)
+struct Big(Vec<u32>);
+impl Big {
+    fn from_u64(v: u64) -> Big {
+        let mut b = Big(vec![]);
+        let mut v = v;
+        while v > 0 {
+            b.0.push((v % 1_000_000_000) as u32);
+            v /= 1_000_000_000;
+        }
+        b
+    }
+    fn mul_small(&mut self, m: u32) {
+        let mut carry: u64 = 0;
+        for l in self.0.iter_mut() {
+            let v = *l as u64 * m as u64 + carry;
+            *l = (v % 1_000_000_000) as u32;
+            carry = v / 1_000_000_000;
+        }
+        while carry > 0 {
+            self.0.push((carry % 1_000_000_000) as u32);
+            carry /= 1_000_000_000;
+        }
+    }
+    fn to_dec(&self) -> String {
+        let mut out = String::new();
+        for (k, l) in self.0.iter().rev().enumerate() {
+            if k == 0 {
+                out.push_str(&l.to_string());
+            } else {
+                out.push_str(&format!("{l:09}"));
+            }
+        }
+        if out.is_empty() {
+            out.push('0');
+        }
+        out
+    }
+}
+
+/// Exact decimal expansion (integer part, fraction part) of the midpoint between the non-negative double `x` and
+/// its successor: x = m * 2^e, midpoint = (2m + 1) * 2^(e-1).  Also returns what round-to-nearest-even gives.
+fn midpoint_decimal(x: f64) -> (String, String, f64) {
+    let bits = x.to_bits();
+    let field = ((bits >> 52) & 0x7ff) as i64;
+    let frac = bits & ((1u64 << 52) - 1);
+    let (m, e) = if field == 0 { (frac, -1074i64) } else { (frac | (1u64 << 52), field - 1075) };
+    let mut n = Big::from_u64(2 * m + 1);
+    let e1 = e - 1;
+    let tie = if m % 2 == 0 { x } else { f64::from_bits(bits + 1) };
+    if e1 >= 0 {
+        for _ in 0..e1 {
+            n.mul_small(2);
+        }
+        (n.to_dec(), String::new(), tie)
+    } else {
+        let k = (-e1) as usize;
+        for _ in 0..k {
+            n.mul_small(5);
+        }
+        let mut d = n.to_dec();
+        if d.len() <= k {
+            d = format!("{}{}", "0".repeat(k + 1 - d.len()), d);
+        }
+        let cut = d.len() - k;
+        (d[..cut].to_string(), d[cut..].to_string(), tie)
+    }
+}
+
+/// decimal digit string minus one unit in its last place
+fn dec_pred(digits: &str) -> String {
+    let mut d: Vec<u8> = digits.bytes().collect();
+    let mut k = d.len();
+    while k > 0 {
+        k -= 1;
+        if d[k] > b'0' {
+            d[k] -= 1;
+            break;
+        }
+        d[k] = b'9';
+    }
+    String::from_utf8(d).unwrap()
+}
+
+fn plain_form(ip: &str, fp: &str) -> String {
+    if fp.is_empty() { ip.to_string() } else { format!("{ip}.{fp}") }
+}
+
+/// d.ddd…e±X with the same value as ip.fp (random exponent decoration)
+fn sci_form(r: &mut impl Rng, ip: &str, fp: &str) -> String {
+    let all = format!("{ip}{fp}");
+    let lead = all.len() - all.trim_start_matches('0').len();
+    let digits = all.trim_start_matches('0');
+    if digits.is_empty() {
+        return "0.0e0".into();
+    }
+    let exp = ip.len() as i64 - lead as i64 - 1;
+    let e = if r.gen_bool(0.5) { 'e' } else { 'E' };
+    let sg = if exp < 0 { "-" } else if r.gen_bool(0.4) { "+" } else { "" };
+    let zeros = "0".repeat(*[0usize, 0, 1, 7].choose(r).unwrap());
+    format!("{}.{}{e}{sg}{zeros}{}", &digits[..1], &digits[1..], exp.abs())
+}
+
+/// (spelling, expected double or None when the value must be rejected, family)
+fn halfway_spellings(r: &mut impl Rng, n: u64) -> Vec<(String, Option<f64>, &'static str)> {
+    let mut xs: Vec<f64> = vec![
+        0.0, 5e-324, f64::MIN_POSITIVE, f64::from_bits(f64::MIN_POSITIVE.to_bits() - 1), f64::MAX, f64::from_bits(f64::MAX.to_bits() - 1),
+        9007199254740992.0, 9007199254740990.0, 4503599627370497.0, 1.0, 0.1, 1e-5, 1e300, 1e23, 8.5e-5, 2.2250738585072011e-308,
+    ];
+    let fields: [u64; 14] = [0, 0, 1, 2, 1006, 1022, 1023, 1024, 1075, 1076, 1100, 2019, 2045, 2046];
+    while (xs.len() as u64) < n {
+        let field = if r.gen_bool(0.7) { *fields.choose(r).unwrap() } else { r.gen_range(0..2047) };
+        let mut frac: u64 = r.gen::<u64>() & ((1 << 52) - 1);
+        match r.gen_range(0..6) {
+            0 => frac = 0,
+            1 => frac = (1 << 52) - 1,
+            2 => frac &= 0xff,
+            _ => {}
+        }
+        xs.push(f64::from_bits((field << 52) | frac));
+    }
+    let mut out = vec![];
+    for x in xs {
+        let (ip, fp, tie) = midpoint_decimal(x);
+        let hi = f64::from_bits(x.to_bits() + 1);
+        let fin = |v: f64| if v.is_finite() { Some(v) } else { None };
+        let z = r.gen_range(3..40usize) + if ip.len() + fp.len() < 22 { 22 } else { 0 };
+        // the tie itself, just above (…0001), just below (last digit decreased, then 9s)
+        let up_fp = format!("{fp}{}1", "0".repeat(z));
+        let all = dec_pred(&format!("{ip}{fp}"));
+        let (dn_ip, dn_fp) = (all[..ip.len()].to_string(), format!("{}{}", &all[ip.len()..], "9".repeat(z)));
+        for (i, f, want, fam) in [(ip.clone(), fp.clone(), fin(tie), "tie"), (ip.clone(), up_fp, fin(hi), "above"), (dn_ip, dn_fp, Some(x), "below")] {
+            out.push((plain_form(&i, &f), want, fam));
+            out.push((sci_form(r, &i, &f), want, fam));
+        }
+    }
+    out
+}
+
+/// other shapes a change of lexer options or fast paths could break
+fn stress_spellings(r: &mut impl Rng, n: u64) -> Vec<String> {
+    let mut out: Vec<String> = [
+        "1e0000000010", "1e+0000000000000000000000000000000000000003", "1e-0000000003", "1E00000000000000000400", "0e999999999999999999999999",
+        "1e99999999999999999999999", "1e-99999999999999999999999", "1e-400", "1e-323", "1e-324", "2.4703282292062328e-324", "4.9406564584124654e-324",
+        "0.00000000000000000000000000000000000000000000000001", "123456789012345678.90123456789012345678901234567890",
+        "0x000000000000000000000000ffffffffffffffff", "0xffff_ffff_ffff_ffff_", "0X7fff_ffff__ffff_ffff", "0x1_0000_0000_0000_0000",
+        "0o1777777777777777777777", "0o00001_777_777_777_777_777_777_777", "0o2000000000000000000000",
+        "00000000000000000000000000000018446744073709551615", "00000000000000000000000000000018446744073709551616",
+        "18_446_744_073_709_551_615", "9_223_372_036_854_775_808", "1.7976931348623157e308", "1.7976931348623158e308", "17976931348623157e292",
+        "0.17976931348623157e309", "179769313486231570000000000e282", "8.98846567431158e307", "4.450147717014403e-308", "2.2250738585072014e-308",
+    ].iter().map(|x| x.to_string()).collect();
+    out.push(format!("0b{}", "1".repeat(64)));
+    out.push(format!("0b{}{}", "0".repeat(100), "1".repeat(64)));
+    out.push(format!("0b1{}", "0".repeat(64)));
+    out.push(format!("0B{}", "1_".repeat(64)));
+    out.push(format!("0.{}1", "0".repeat(322)));
+    out.push(format!("0.{}1", "0".repeat(323)));
+    out.push(format!("0.{}1", "0".repeat(400)));
+    out.push(format!("0.{}25e400", "0".repeat(400)));
+    out.push(format!("1{}e-300", "0".repeat(300)));
+    out.push(format!("1{}.0e-300", "0".repeat(19)));
+    out.push(format!("{}1.5", "0".repeat(300)));
+    out.push(format!("1.5{}", "0".repeat(700)));
+    out.push(format!("1.{}1", "0".repeat(700)));
+    out.push(format!("0.3{}", "3".repeat(800)));
+    out.push(format!("9.{}", "9".repeat(60)));
+    out.push(format!("0.{}", "9".repeat(60)));
+    while (out.len() as u64) < n {
+        // long random mantissas (20 .. 800 digits), the point anywhere (integer part below 2^64), any exponent form
+        let ni = r.gen_range(0..=19usize);
+        let nf = *[1usize, 5, 18, 25, 40, 120, 400, 780].choose(r).unwrap();
+        let mut t = random_digits(r, ni, 10);
+        if ni == 19 {
+            t.replace_range(0..1, "1");
+        }
+        if r.gen_bool(0.3) {
+            t = format!("{}{t}", "0".repeat(r.gen_range(1..30)));
+        }
+        t.push('.');
+        if r.gen_bool(0.3) {
+            t.push_str(&"0".repeat(r.gen_range(1..340)));
+        }
+        t.push_str(&random_digits(r, nf, 10));
+        if r.gen_bool(0.3) {
+            t.push_str(&"0".repeat(r.gen_range(1..200)));
+        }
+        if r.gen_bool(0.6) {
+            let e: i32 = *[0, 1, -1, 10, -10, 22, 23, -22, 300, -300, 308, -308, -320, -330, 400].choose(r).unwrap() + r.gen_range(-3..=3);
+            t.push(if r.gen_bool(0.5) { 'e' } else { 'E' });
+            if e < 0 {
+                t.push('-');
+            } else if r.gen_bool(0.3) {
+                t.push('+');
+            }
+            t.push_str(&"0".repeat(*[0usize, 0, 2, 12].choose(r).unwrap()));
+            t.push_str(&e.abs().to_string());
+        }
+        if r.gen_bool(0.2) {
+            // separators anywhere the grammar allows them: not right after the point, not between e and its sign
+            t = sprinkle(r, &t, 0.05);
+            while t.contains("._") {
+                t = t.replace("._", ".");
+            }
+            for (a, b) in [("e_", "e"), ("E_", "E")] {
+                while t.contains(a) {
+                    t = t.replace(a, b);
+                }
+            }
+        }
+        out.push(t);
+    }
+    out
+}
+
+fn run_families(ctx: &Ctx, sum: &mut Summary) {
+    let mut rng = util::rng(ctx.seed, 55);
+    let judge = |lit: &str, want: Option<Option<f64>>, fam: &str, rng: &mut rand_chacha::ChaCha8Rng, sum: &mut Summary| {
+        let sign = *["", "", "-"].choose(rng).unwrap();
+        let mut o = match own_math(lit) {
+            Some((is_float, mant, e10)) => {
+                let mut o = judge_all(sign, lit, is_float, &mant, e10, None, None);
+                // self-check of the oracle: what round-to-nearest-even must give is known analytically here
+                if let Some(w) = want {
+                    let got = nearest_f64(&mant, e10);
+                    let same = match w {
+                        Some(v) => got.to_bits() == v.to_bits(),
+                        None => !got.is_finite(),
+                    };
+                    if !same {
+                        o.diverge(format!("oracle self-check: str::parse gives {got:e} for {lit:?}, expected {w:?}"));
+                    }
+                }
+                o
+            }
+            None => {
+                let mut o = Outcome::ok(true);
+                o.diverge(format!("the harness cannot read its own spelling {lit:?}"));
+                o
+            }
+        };
+        o.nontrivial = true;
+        o.count(fam);
+        sum.absorb(&json!({"spelling": format!("{sign}{lit}")}), &o, true);
+    };
+    for (lit, want, fam) in halfway_spellings(&mut rng, ctx.arg_u64("halfway", 120)) {
+        judge(&lit, Some(want), &format!("halfway_{fam}"), &mut rng, sum);
+    }
+    for lit in stress_spellings(&mut rng, ctx.arg_u64("stress", 300)) {
+        judge(&lit, None, "stress", &mut rng, sum);
     }
 }
 
@@ -534,5 +822,6 @@ pub fn drive(ctx: &Ctx) -> Summary {
         o.count_n("events", chars.len() as u64 + 3);
         sum.absorb(&json!({"spelling": format!("{sign}{lit}")}), &o, true);
     }
+    run_families(ctx, &mut sum);
     sum
 }
